@@ -1,3 +1,92 @@
-"""Vector point formulas part of C03."""
+"""Vector point formulas part of C03: AVX2 / IFMA ExtendedPoint, CachedPoint, lookup tables through the hooks."""
+from .. import core, ref, vals, pts, vecmodel as vm
+from ..core import hx, lst
+from ..ref import P, L
+
+REQUIRED_V = ['vpt:double', 'vpt:add', 'vpt:sub', 'vpt:cached', 'vpt:table', 'vpt:select', 'vpt:roundtrip']
+
+
+def run_model(ctx, model, pool, n):
+    rng = ctx.rng
+    pfx = 'vec.%s.pt' % model.name
+
+    def ext_ok(aff):
+        def f(toks):
+            vs = vm.lane_values(model, vm.parse(toks[0]))
+            return None if vm.is_ext_of(vs, aff) else 'vector ExtendedPoint does not denote the model point'
+        return f
+
+    def cached_ok(aff):
+        def f(toks):
+            vs = vm.lane_values(model, vm.parse(toks[0]))
+            return None if vm.is_cached_of(vs, aff) else 'vector CachedPoint is not the cached form of the model point'
+        return f
+    for _ in range(n):
+        ctx.block()
+        p, q = rng.choice(pool), rng.choice(pool)
+        r = rng.random()
+        if r < 0.15:
+            q = p
+        elif r < 0.3:
+            q = vals.pt_neg(p)
+        elif r < 0.45:
+            q = vals.pt_add(p, vals.Pt(0, rng.randrange(1, 8)))
+        ep = ctx.add(pfx, 'ext_from_edwards', p.tok(), expect=ext_ok(p.affine()), cls='vpt:roundtrip', info='repr')
+        eq = ctx.add(pfx, 'ext_from_edwards', q.tok(), expect=ext_ok(q.affine()), cls='vpt:roundtrip', info='repr')
+        ctx.add(pfx, 'ext_to_edwards', ctx.ref(ep, 0), expect=pts.expect_ed(p.affine()), cls='vpt:roundtrip', info='repr')
+        d = ctx.add(pfx, 'ext_double', ctx.ref(ep, 0), expect=ext_ok(vals.pt_mul(2, p).affine()), cls='vpt:double', info='repr')
+        ctx.add(pfx, 'ext_to_edwards', ctx.ref(d, 0), expect=pts.expect_ed(vals.pt_mul(2, p).affine()), cls='vpt:double', info='repr')
+        k = rng.randint(1, 5)
+        ctx.add(pfx, 'ext_pow2', ctx.ref(ep, 0), '#%d' % k, expect=ext_ok(vals.pt_mul(1 << k, p).affine()), cls='vpt:double', info='repr')
+        cq = ctx.add(pfx, 'cached_from_ext', ctx.ref(eq, 0), expect=cached_ok(q.affine()), cls='vpt:cached', info='repr')
+        nq = ctx.add(pfx, 'cached_neg', ctx.ref(cq, 0), expect=cached_ok(vals.pt_neg(q).affine()), cls='vpt:cached', info='repr')
+        s = ctx.add(pfx, 'ext_add_cached', ctx.ref(ep, 0), ctx.ref(cq, 0), expect=ext_ok(vals.pt_add(p, q).affine()), cls='vpt:add', info='repr')
+        ctx.add(pfx, 'ext_to_edwards', ctx.ref(s, 0), expect=pts.expect_ed(vals.pt_add(p, q).affine()), cls='vpt:add', info='repr')
+        df = vals.pt_add(p, vals.pt_neg(q))
+        s2 = ctx.add(pfx, 'ext_sub_cached', ctx.ref(ep, 0), ctx.ref(cq, 0), expect=ext_ok(df.affine()), cls='vpt:sub', info='repr')
+        ctx.add(pfx, 'ext_add_cached', ctx.ref(ep, 0), ctx.ref(nq, 0), expect=ext_ok(df.affine()), cls='vpt:sub', info='repr')
+        # chains: results (unreduced products) fed back into the formulas
+        s3 = ctx.add(pfx, 'ext_double', ctx.ref(s, 0), expect=ext_ok(vals.pt_mul(2, vals.pt_add(p, q)).affine()), cls='vpt:double', info='repr')
+        c3 = ctx.add(pfx, 'cached_from_ext', ctx.ref(s3, 0), expect=cached_ok(vals.pt_mul(2, vals.pt_add(p, q)).affine()), cls='vpt:cached', info='repr')
+        ctx.add(pfx, 'ext_sub_cached', ctx.ref(d, 0), ctx.ref(c3, 0),
+                expect=ext_ok(vals.pt_add(vals.pt_mul(2, p), vals.pt_neg(vals.pt_mul(2, vals.pt_add(p, q)))).affine()), cls='vpt:sub', info='repr')
+        if rng.random() < 0.35:
+            kind = rng.choice([0, 1, 2])
+            mults = {0: list(range(1, 9)), 1: list(range(1, 16, 2)), 2: list(range(1, 128, 2))}[kind]
+
+            def tab_ok(toks, p=p, mults=mults):
+                items = toks[0][1:-1].split(';')
+                if len(items) != len(mults):
+                    return 'table length %d' % len(items)
+                for it, mlt in zip(items, mults):
+                    vs = vm.lane_values(model, vm.parse(it))
+                    if not vm.is_cached_of(vs, vals.pt_mul(mlt, p).affine()):
+                        return 'table entry for multiple %d is wrong' % mlt
+                return None
+            ctx.add(pfx, 'table', '#%d' % kind, p.tok(), expect=tab_ok, cls='vpt:table', info='repr')
+        x = rng.choice([-8, -7, -1, 0, 1, 2, 7, 8, rng.randint(-8, 8)])
+        ctx.add(pfx, 'select', p.tok(), '%d' % x, expect=cached_ok((vals.pt_mul(x, p) if x > 0 else vals.pt_neg(vals.pt_mul(-x, p))).affine() if x else ref.IDENT),
+                cls='vpt:select', info='repr')
+    ctx.block()
+
+
+def task(prop, seed, size, cfgbins, which='avx2'):
+    ctx = core.Ctx(seed, prefix='y%d_' % (seed % 100000))
+    pool = vals.point_pool(ctx.rng, 32)
+    run_model(ctx, vm.Avx2 if which == 'avx2' else vm.Ifma, pool, size)
+    return core.run_and_judge(prop, ctx, cfgbins, compare=False)
+
+
 def tasks(prop, tier, seed, bins):
-    return []
+    out = []
+    size = 24 if tier == 'quick' else 800
+    nt = 2 if tier == 'quick' else 8
+    for label, path in bins:
+        be = label.split('-')[0]
+        if be in ('simd', 'avx512'):
+            for i in range(nt):
+                out.append(('vlib.props.c03v', 'task', prop, seed * 1000 + 700 + i, size, [(label, path, None)], {'which': 'avx2'}))
+        if be == 'avx512':
+            for i in range(nt):
+                out.append(('vlib.props.c03v', 'task', prop, seed * 1000 + 800 + i, size, [(label, path, None)], {'which': 'ifma'}))
+    return out
